@@ -1209,6 +1209,19 @@ fn main() {
                 }
             }
         }
+        // a key repeated so often that its shard exceeds the balance bound of a sharded
+        // build (more than 1 % above the average): the error must still be reported
+        if !debug {
+            for v in (0..VARIANTS.len()).filter(|&v| VARIANTS[v].int_keys && VARIANTS[v].sharded) {
+                for &(n, m) in &[(200_000usize, 3000usize), (200_000, 700), (400_000, 1500)] {
+                    let mut cfg = base_cfg(&mut r, false, true);
+                    cfg.threads = pick(&mut r, &[Some(1), Some(4), Some(16)]);
+                    let mut s = mk(&mut r, "duplicates", n, cfg, Where::Keys, FaultKind::NoFault, Retry::None, Some(DupShape::Multi(m)));
+                    s.max_dup_passes = 8;
+                    run(&mut ctx, v, s);
+                }
+            }
+        }
         if thorough && !debug {
             for v in (0..VARIANTS.len()).filter(|&v| VARIANTS[v].int_keys) {
                 for &n in &[200_000usize, 650_000, 1_000_000] {
